@@ -13,6 +13,8 @@ CONSTANTS
   MaxHolds = 1
   MaxNoops = 2
   WithSettle = FALSE
+  MaxErrs = 1
+  FaultsAt = "any"
   PauseAtomic = TRUE
   StartRollback = TRUE
   EntityGC = TRUE
@@ -21,3 +23,5 @@ CONSTANTS
   JoinedStopped = TRUE
   LateRegisterChecked = TRUE
   BarrierExits = FALSE
+  IntPauseAtomic = TRUE
+  GaugeDeleteFirst = TRUE
